@@ -4,7 +4,7 @@ PATCH=$(realpath $1); P=$2; TIER=${3:-quick}
 git -C /repo diff --quiet || { echo "/repo not clean"; exit 9; }
 R=$(dirname $PATCH)/patch.rebased.diff
 [ -f $R ] && PATCH=$R
-git -C /repo apply $PATCH 2>/dev/null || { git -C /repo apply -3 $PATCH >/dev/null 2>&1 && git -C /repo reset -q; } || { echo "patch does not apply"; git -C /repo checkout -- .; exit 9; }
+git -C /repo apply $PATCH 2>/dev/null || { git -C /repo apply -3 $PATCH >/dev/null 2>&1 && git -C /repo reset -q; } || { echo "patch does not apply"; git -C /repo reset -q --hard HEAD; exit 9; }
 cd /verif && bin/check $P --tier $TIER > /tmp/try_$P.log 2>&1; RC=$?
 git -C /repo checkout -- .
 echo "rc=$RC $(grep -c '^VIOLATION' /tmp/try_$P.log) violation line(s)"; grep -E '^(VIOLATION|KNOWN|HARNESS|\[)' /tmp/try_$P.log | cut -c1-400 | head -12
